@@ -17,17 +17,24 @@
    I-layer: buffer entries with removed flags, m_index as one entry per block (offset in units or REMOVED) in
    handle order, the counters, the capacity with Buffer::reserve_space's doubling, garbage_collect() =
    Buffer::purge_removed with cleanup_helper's cursor walk.  clear() empties buffer and index (handles start
-   again at 1, the capacity stays). *)
+   again at 1, the capacity stays).
+   FillFirst / RemovableTo only restrict which behaviours a generator configuration explores (fill the buffer to
+   64 units first, then remove among the first blocks): that is where [check 3], the ratio of removed to live
+   items, decides alone whether the next add_item() collects or doubles the buffer. *)
 EXTENDS Integers, Sequences, FiniteSets, TLC, Json
 CONSTANTS Cap0, Kinds,     \* Kinds: set of [k |-> items in the block, size |-> units of the whole block]
           GCMin,           \* [check 1]: 10000 in the code
           JStar,           \* items of a small-item block after which less than 10 KiB of one unit are left (865)
-          MaxBlocks, MaxSteps, MaxClears, MaxGCs, ExportHist
+          MaxBlocks, MaxSteps, MaxClears, MaxGCs,
+          FillFirst,       \* scenario restriction: nothing but add_item() until this many blocks were added (0: none)
+          RemovableTo,     \* scenario restriction: only the first RemovableTo blocks are ever removed (0: all)
+          ExportHist
 REMOVED == -1
 (* values for Kinds (cfg files cannot spell records): scaled for the exhaustive check / real geometry *)
 KindsMC == {[k |-> 1, size |-> 1], [k |-> 1, size |-> 3], [k |-> 3, size |-> 1]}
 KindsReal == {[k |-> 1, size |-> 1], [k |-> 1, size |-> 5], [k |-> 1000, size |-> 1], [k |-> 999, size |-> 1]}
 KindsBlocks == {[k |-> 1, size |-> 1], [k |-> 1000, size |-> 1], [k |-> 999, size |-> 1]}
+KindsK1000 == {[k |-> 1000, size |-> 1]}
 
 VARIABLES buf,      \* sequence of [h, k, size, removed]
           cap, index,       \* index: sequence of [h, k, off]
@@ -89,6 +96,7 @@ AddItem(kd) ==
 
 RemoveItem(i) ==          \* all items of the i-th block, one remove_item() each
     /\ Go /\ i <= Len(index) /\ index[i].h \in Live
+    /\ Len(index) >= FillFirst /\ (RemovableTo = 0 \/ i <= RemovableTo)
     /\ UNCHANGED <<cap, gcs, clears, xgcs>>
     /\ LET h == index[i].h IN
        /\ buf' = [j \in 1..Len(buf) |-> IF buf[j].h = h /\ ~buf[j].removed THEN [buf[j] EXCEPT !.removed = TRUE] ELSE buf[j]]
@@ -98,13 +106,13 @@ RemoveItem(i) ==          \* all items of the i-th block, one remove_item() each
        /\ Rec("remove_item", h, "no")
 
 GarbageCollect ==
-    /\ Go /\ nremoved > 0 /\ xgcs < MaxGCs
+    /\ Go /\ nremoved > 0 /\ xgcs < MaxGCs /\ Len(index) >= FillFirst
     /\ buf' = GC.buf /\ index' = GC.index /\ nremoved' = 0 /\ gcs' = gcs + 1 /\ xgcs' = xgcs + 1
     /\ UNCHANGED <<cap, nitems, M, clears>>
     /\ Rec("garbage_collect", 0, "no")
 
 Clear ==
-    /\ Go /\ index # <<>> /\ clears < MaxClears
+    /\ Go /\ index # <<>> /\ clears < MaxClears /\ Len(index) >= FillFirst
     /\ buf' = <<>> /\ index' = <<>> /\ nitems' = 0 /\ nremoved' = 0 /\ M' = NoMap /\ clears' = clears + 1
     /\ UNCHANGED <<cap, gcs, xgcs>>
     /\ Rec("clear", 0, "no")
